@@ -40,7 +40,7 @@ verus! {
 
 // the Bool / Number members of a list value (the arms of `for value in s` that do not go through into_identifier):
 // verified under both builds (members / members_ic = --cfg feature="ignore_case")
-//%slice parser.rs member_bool fn parse_mapping ;; after:nth=2:Yaml::Bool(b) => { ;; Box::new(Expression::Boolean(*b)), +2 ;; fn member_bool(misc: Option<ModSym>, unmatched_e: Expression, b: &bool, exact: &mut Vec<Identifier>, rest: &mut Vec<Expression>, mut number: bool, mut string: bool, mut boolean: bool) -> (bool, bool, bool) ;; (number, string, boolean)
+//%slice parser.rs member_bool fn parse_mapping ;; inside:nth=2:Yaml::Bool(b) => { ;; - ;; fn member_bool(misc: Option<ModSym>, e: Expression, unmatched_e: Expression, b: &bool, exact: &mut Vec<Identifier>, rest: &mut Vec<Expression>, mut number: bool, mut string: bool, mut boolean: bool) -> (bool, bool, bool) ;; (number, string, boolean) ;; cont:(number, string, boolean)
 
 //%slice parser.rs member_number fn parse_mapping ;; after:nth=2:Yaml::Number(n) => { ;; "number must be a signed integer or float, encountered - {:?}", +2 ;; fn member_number(misc: Option<ModSym>, unmatched_e: Expression, n: &serde_yaml::Number, k: &String, exact: &mut Vec<Identifier>, rest: &mut Vec<Expression>, mut number: bool, mut string: bool) -> crate::Result<(bool, bool)> ;; - ;; cont:Ok((number, string))
 
